@@ -281,3 +281,46 @@ Proof.
   destruct (Rleb 2 0) eqn:E2; [apply Rleb_true in E2; lra|].
   reflexivity.
 Qed.
+
+(* IrregularParameterGrid.add_extra_lower_and_upper_bin in exact arithmetic: a
+   strictly increasing grid (>= 2 points) stays strictly increasing, keeps all
+   its points, and gets one point below and one above *)
+Lemma incr_last2 l x y : incr (l ++ [x; y]) -> x < y.
+Proof.
+  induction l as [|a l IH]; cbn [app]; [intros [H _]; exact H|].
+  intros H. apply IH. apply (incr_tail _ _ H).
+Qed.
+Lemma incr_snoc l x y z : incr (l ++ [x; y]) -> y < z -> incr (l ++ [x; y; z]).
+Proof.
+  induction l as [|a l IH]; cbn [app]; intros H Hz.
+  - destruct H as [Hxy _]. cbn. tauto.
+  - pose proof (IH (incr_tail _ _ H) Hz) as IH'.
+    destruct l as [|c l]; cbn [app] in *.
+    + destruct H as [Hax _]. split; [exact Hax|exact IH'].
+    + destruct H as [Hac _]. split; [exact Hac|exact IH'].
+Qed.
+
+Section IrrExt.
+  Variable erfR : R -> R.
+  Notation RN := (RNum erfR).
+
+  Theorem irregular_extend_increasing grid g0 g1 rest : grid = g0 :: g1 :: rest -> incr grid ->
+    exists lo hi, irr_extend RN grid = Ok (lo :: grid ++ [hi]) /\
+                  lo = g0 - (g1 - g0) /\ incr (lo :: grid ++ [hi]).
+  Proof.
+    intros Eg Hs.
+    destruct (rev grid) as [|gl [|gl1 r]] eqn:Er.
+    - subst grid. cbn in Er. destruct (rev rest ++ [g1]); discriminate.
+    - assert (length (rev grid) = 1)%nat by (rewrite Er; reflexivity).
+      rewrite rev_length in H. subst grid. cbn in H. lia.
+    - assert (Egr : grid = rev r ++ [gl1; gl]).
+      { rewrite <- (rev_involutive grid), Er. cbn [rev]. rewrite <- app_assoc. reflexivity. }
+      exists (g0 - (g1 - g0)), (gl + (gl - gl1)).
+      split; [|split; [reflexivity|]].
+      + unfold irr_extend. rewrite Eg in Er |- *. cbv beta iota. rewrite Er. rewrite K_ig_extra_lo, K_ig_extra_hi. num_R. reflexivity.
+      + assert (Hll : gl1 < gl) by (rewrite Egr in Hs; apply (incr_last2 _ _ _ Hs)).
+        assert (Hhi : incr (grid ++ [gl + (gl - gl1)])).
+        { rewrite Egr, <- app_assoc. cbn [app]. apply incr_snoc; [rewrite <- Egr; exact Hs|lra]. }
+        rewrite Eg in Hhi, Hs |- *. cbn [app] in *. destruct Hs as [H01 _]. split; [lra|exact Hhi].
+  Qed.
+End IrrExt.
